@@ -1,6 +1,7 @@
 package main
 
 import (
+	"os"
 	"fmt"
 	"go/constant"
 	"go/types"
@@ -270,6 +271,9 @@ func (x *EvalCtx) ident(name string) Val {
 			}
 		}
 		if nb, ok := x.s.names[name]; ok {
+			if os.Getenv("GOVC_DEBUG_NAMES") == name {
+				fmt.Fprintf(os.Stderr, "name %s -> %T %v isaddr=%v\n", name, nb.V, nb.V, nb.IsAddr)
+			}
 			v, ok2 := x.s.env[nb.V]
 			if !ok2 {
 				if c, isC := nb.V.(*ssa.Const); isC {
@@ -283,7 +287,13 @@ func (x *EvalCtx) ident(name string) Val {
 				if nb.IsAddr {
 					a := x.s.ptrAddr(v)
 					if a != nil {
-						return x.s.pureLoad(a)
+						lv := x.s.pureLoad(a)
+						if kindOf(lv.T) == kStr && lv.S != "" {
+							// the content of a string variable that lives in memory: the basic measure facts
+							// (0 <= nsc <= vlen, ...) hold of it as of every string value
+							x.s.strBasics(lv.S)
+						}
+						return lv
 					}
 				}
 				return v
